@@ -60,6 +60,10 @@ func genWQ(g *genCtx) {
 			genStopBreakStorm(g, r)
 			continue
 		}
+		if profile == "C14" && t%6 == 4 {
+			genManySubs(g, r)
+			continue
+		}
 		if (profile == "C05" || profile == "C16") && t%4 == 3 {
 			genSetPrioStorm(g, r)
 			continue
@@ -70,6 +74,10 @@ func genWQ(g *genCtx) {
 			g.op("new W=%d L=%d order=LW", W, L)
 		} else {
 			g.op("new W=%d L=%d", W, L)
+		}
+		if profile == "C09" && t%2 == 0 {
+			// another Queue in the same process, with another length: the queues do not share anything
+			g.op("otherq L=%d", []int{1, 2, 7, 40}[r.intn(4)])
 		}
 		n := 0     // enqueues issued
 		subs := 0  // subscribers
@@ -125,6 +133,9 @@ func genWQ(g *genCtx) {
 				g.op("recverr sub=%d", r.intn(subs))
 			case x < 89:
 				g.op("resize L=%d", r.rangeIn(1, maxL+1))
+				if profile == "C09" && r.chance(1, 2) {
+					g.op("otherq resize=%d", []int{1, 3, 50}[r.intn(3)])
+				}
 			case x < 93 && n > 0 && (profile == "C16" || r.chance(1, 3)):
 				id := r.intn(n + 1) // n = an id the queue has never seen
 				g.op("deq id=%d", id)
@@ -164,6 +175,26 @@ func genWQ(g *genCtx) {
 		}
 		g.op("final")
 	}
+}
+
+// genManySubs: 9-20 error subscribers registered before the first error (more than any small buffer a fan-out might keep),
+// then two failing work items; every subscriber receives each error once.
+func genManySubs(g *genCtx, r *rng) {
+	g.op("new W=1 L=4")
+	N := r.rangeIn(9, 20)
+	for i := 0; i < N; i++ {
+		g.op("sub")
+	}
+	g.op("enq prio=1 name=0 adj=0")
+	g.op("enq prio=1 name=1 adj=0")
+	for it := 0; it < 2; it++ {
+		g.op("rel pick=0 err=1")
+		for i := 0; i < N; i++ {
+			g.op("recverr sub=%d", i)
+		}
+	}
+	g.op("rel pick=0 err=0")
+	g.op("final")
 }
 
 // genStopBreakStorm: busy workers and a backlog; Stop, then (with the dispatcher handing the backlog over) Break, or the
@@ -306,6 +337,8 @@ type wqRun struct {
 	running  []int // started and not yet released, in start order
 	returned map[int]bool
 	adjVals  map[int]*atomic.Int64
+	other    *workqueue.Queue // a second, unrelated queue in the same process
+	otherIDs map[int]bool     // its goroutines
 	subs     []chan error
 	errs     [][]int // per subscriber: item ordinals whose error was received (999 = unknown value)
 	progress atomic.Int64
@@ -339,6 +372,16 @@ func (r *wqRun) observe(extra string) string {
 	gs := settle("toolchest/workqueue.", func() int64 { return r.progress.Load() }, 8*time.Second)
 	if gs == nil {
 		return extra + "noquiesce"
+	}
+	if len(r.otherIDs) > 0 {
+		// the goroutines of the unrelated second queue are not part of the observation
+		own := gs[:0:0]
+		for _, g := range gs {
+			if !r.otherIDs[g.id] {
+				own = append(own, g)
+			}
+		}
+		gs = own
 	}
 	dumpGors(gs)
 	disp, mon := "gone", "gone"
@@ -613,6 +656,33 @@ func execWQCase(x *execCtx) {
 				}
 				out(line, r.observe("ret="+ret+" "))
 			}()
+		case "otherq":
+			if _, ok := f["L"]; ok || r.other == nil {
+				before := map[int]bool{}
+				for _, g := range snapshot() {
+					before[g.id] = true
+				}
+				if ok {
+					r.other = workqueue.NewQueue(workqueue.WithWorkers(2), workqueue.WithQueueLength(atoi(f["L"])))
+				} else {
+					r.other = workqueue.NewQueue(workqueue.WithWorkers(2))
+				}
+				// let its goroutines start (dispatcher, monitor, workers), then remember which ones they are
+				settle("toolchest/workqueue.", func() int64 { return r.progress.Load() }, 8*time.Second)
+				time.Sleep(2 * time.Millisecond)
+				if r.otherIDs == nil {
+					r.otherIDs = map[int]bool{}
+				}
+				for _, g := range snapshot() {
+					if !before[g.id] && g.mentions("toolchest/workqueue.") {
+						r.otherIDs[g.id] = true
+					}
+				}
+			}
+			if v, ok := f["resize"]; ok {
+				r.other.ResizeQueueLength(atoi(v))
+			}
+			out(line, r.observe(""))
 		case "stop", "brk":
 			// n=K: the call comes from K goroutines at once ("may be called at any time" — also at the same time)
 			call := r.q.Stop
